@@ -3,6 +3,7 @@
 import json, os, shutil, subprocess, sys
 head = subprocess.check_output(['git', '-C', '/repo', 'log', '--format=%h', '-1']).decode().strip()
 author = "fresh sub-agent given the property text, a scratch worktree and the hint that the verifiers use small-input randomized tests (asked for defects such tests are likely to miss)"
+author4 = "fresh sub-agent given the property text, a scratch worktree and a description of what the verifiers do after three rounds (models, scale-up, multi-step histories, real I/O with OS errors, repeated options, concurrent callers, environment, byte-level shapes, boundary values, less central commands); asked for a different kind: interactions with features owned by other parts of the code, time and resource limits, legacy artefacts, numeric conversions, undefined-order sources, cleanup skipped on early returns, changed defaults"
 author3 = "fresh sub-agent given the property text, a scratch worktree and a description of what the verifiers do after two rounds (small-input models, scale-up tests, two-step histories, real files and pipes, repeated options, concurrent callers); asked for what is left: less central entry points, seldom varied environment, state across more than two steps, numeric edge values, error paths"
 S = json.load(open(sys.argv[1]))
 RND = int(sys.argv[2]) if len(sys.argv) > 2 else 2
@@ -20,7 +21,7 @@ for key, (chg, needs, det, fu, by) in S.items():
     gen = os.path.join(os.path.dirname(src), 'gen_data.py')
     if os.path.isfile(gen):
         shutil.copy(gen, dst)
-    meta = {"property": P, "name": f"{P}-r{RND}{M}", "round": RND, "author": (author3 if RND == 3 else author), "change": chg, "needs_to_manifest": needs,
+    meta = {"property": P, "name": f"{P}-r{RND}{M}", "round": RND, "author": (author4 if RND == 4 else author3 if RND == 3 else author), "change": chg, "needs_to_manifest": needs,
             "confirmed": {"repo_head": head, "applies_and_builds": True, "pinned_unit_tests_of_touched_packages_still_pass": True,
                           "demonstration_fails_with_patch_and_passes_without": True,
                           "how": "tools_seed_confirm.sh / tools_seed_confirm_sh.sh: the seed's demonstration run with and without patch.diff in a scratch worktree; tools_seed_eval.sh for build + unit tests + checks"},
